@@ -108,11 +108,14 @@ TermHolds(p, t) == t.s % Step = 0 /\ Morton(p) \div 2 ^ t.s = t.v   \* <<t.s, t.
 (* term; hits reached only through boundary terms pass the rectangle       *)
 (* filter (buildRectFilter) when checkBoundaries is set                    *)
 BoxSearch(r, docs, checkBoundaries) ==
-  LET T == BoxTerms(r)
-  IN {d \in docs :
-        \/ \E t \in T : (~t.boundary \/ ~checkBoundaries) /\ \E p \in d : TermHolds(p, t)
-        \/ /\ \E t \in T : t.boundary /\ \E p \in d : TermHolds(p, t)
-           /\ \E p \in d : InRect(p, r)}
+  LET T        == BoxTerms(r)
+      \* points reached through a term whose hits are taken as they are ...
+      plain    == {p \in Points : \E t \in T : (~t.boundary \/ ~checkBoundaries) /\ TermHolds(p, t)}
+      \* ... and through a boundary term (their documents go through the filter)
+      boundary == {p \in Points : \E t \in T : t.boundary /\ TermHolds(p, t)}
+      inside   == {p \in Points : InRect(p, r)}
+  IN {d \in docs : \/ d \cap plain # {}
+                   \/ d \cap boundary # {} /\ d \cap inside # {}}
 
 (* GeoBoundingBoxQuery.Searcher: box = [left, right, bottom, top] in edges; *)
 (* right < left crosses the date line                                      *)
